@@ -61,7 +61,7 @@ def make_probes(bins, rng, max_edges=300):
     h = (b[1] - b[0]) if n > 1 else 1.0
     mids = e + h * rng.uniform(0.05, 0.95, e.size)
     far = numpy.array([b[0] - 100 * h, b[0] - h, b[0] - 0.5 * h, b[0] - 1e-9 * max(abs(b[0]), 1.0), b[-1] + 0.5 * h,
-                       b[-1] + h, b[-1] + 1.5 * h, b[-1] + 2 * h, b[-1] + 100 * h, 0.0, -0.0, 1e300, -1e300])
+                       b[-1] + h, b[-1] + 1.5 * h, b[-1] + 2 * h, b[-1] + 100 * h, 0.0, -0.0, 1e300, -1e300, numpy.inf, -numpy.inf, 1.7e308, -1.7e308])
     rnd = rng.uniform(b[0] - 2 * h, b[-1] + 3 * h, 50)
     return numpy.concatenate([near, mids, far, rnd])
 
